@@ -563,6 +563,27 @@ mod headers {
         }
     });
 
+    // A mode-only section alone (chmod, no content change), end of input. Under --color-only the
+    // three lines are shown as they are and NO mode is cached: a cached mode would be appended to
+    // a later header line or written as an extra, synthesized header by the pending-line handler.
+    header_harness!(c02_headers_mode_only, |sm, cp, cfg| {
+        feed(sm, "diff --git a/s.sh b/s"); // 21 bytes -> stub name "n"
+        feed(sm, "old mode 100644");
+        feed(sm, "new mode 100755");
+        if cfg.color_only {
+            assert!(sm.mode_info.is_empty(), "--color-only: the mode lines are shown as they are, no mode is cached for a later header");
+        }
+        sm.handle_pending_line_with_diff_name().unwrap(); // end of input
+        let (headers, _, unchanged, _) = read(cp);
+        if cfg.color_only {
+            assert!(headers + unchanged == 3, "--color-only: three lines in, three lines out");
+        } else if cfg.handled {
+            assert!(headers == 1 && unchanged == 0, "one header for the mode change, the mode lines themselves are not shown");
+        } else {
+            assert!(headers == 0 && unchanged == 3, "raw file style: pass-through");
+        }
+    });
+
     // A mode-only section followed by another section: the mode change is reported once, under
     // the name taken from ITS OWN diff line (length 21 -> name "n"), not the next one's (23 -> "nnn").
     header_harness!(c14_headers_mode_only_then_modified, |sm, cp, cfg| {
